@@ -4,7 +4,8 @@ W = 2 independent clients (own NodeMaker, own node object, same write-cap) each 
 created beforehand with distinct contents.  Every remote call is TWO scheduler events (execute at
 the server, deliver the response), so server-side order and client-side arrival order are explored
 independently.  ALL interleavings with <= d deviations from the canonical order are executed, for
-(k,N,S) on both sides of (W+1)k <= N, SDMF and MDMF.
+(k,N,S) on both sides of (W+1)k <= N, SDMF and MDMF; also with one server having lost its shares beforehand (both
+writers then look for a new home for the same share numbers), one deviation less.
 Oracle:
  (a) test-and-set at the server: whenever a write call changes a share, the share's checkstring on
      disk just before the call equals the checkstring this writer last observed for that
@@ -46,8 +47,16 @@ def execute(case, prefix, seed):
         cap = b0[0][1].get_uri()
         si = b0[0][1].get_storage_index()
         g.quiesce()
+        for sv_ in case.get("lost", ()):
+            # this server lost its shares before the writers start: both will look for a new home for them and may
+            # pick the same (empty) server - the "share must not exist yet" test vector is what separates them
+            import os as _os
+            for (s_, path) in list(g.share_files()):
+                if s_ == sv_:
+                    _os.remove(_os.path.join(g.base, "s%d" % s_, "shares", path))
         g.sched.split = True
         seen = {}       # (client, server, shnum) -> checkstring last observed (None = absent)
+        surveyed = set()  # (client, server) pairs with an answered survey of all shares
         refused = set()  # clients that had a write refused
         applied = {i: set() for i in range(W)}
 
@@ -62,6 +71,8 @@ def execute(case, prefix, seed):
             out = real_execute(ev)
             after = disk()
             if ev.meth == "slot_readv" and out[0] == "ok":
+                if not ev.args[1]:
+                    surveyed.add((ci, sv))      # an answer for ALL shares: the ones it does not list are absent
                 shnums = ev.args[1] or [sh for (s, sh) in before if s == sv]
                 for sh in set(shnums) | set(sh for (s, sh) in before if s == sv):
                     seen[(ci, sv, sh)] = before.get((sv, sh))
@@ -70,7 +81,7 @@ def execute(case, prefix, seed):
                 for sh, (testv, datav, newlen) in ev.args[2].items():
                     changed = before.get((sv, sh)) != after.get((sv, sh))
                     if changed:
-                        exp = seen.get((ci, sv, sh), "never-surveyed")
+                        exp = seen.get((ci, sv, sh), None if (ci, sv) in surveyed else "never-surveyed")
                         if exp != before.get((sv, sh)):
                             viol.append(("share-overwritten-without-matching-survey", "client %d's write to server %d share %d was applied although the share's checkstring on disk (%r) differs from what this writer last observed (%r)" % (ci, sv, sh, before.get((sv, sh)) and before.get((sv, sh))[:9].hex(), exp if exp in (None, "never-surveyed") else exp[:9].hex())))
                         applied[ci].add((sv, sh))
@@ -183,6 +194,11 @@ def run(tier, seed):
         res.merge(grid.split_tasks(common.pmap, chunk, ten, (seed,), d - 2, 0))
         more_desc = "%d three-writer configurations x formats at <= %d deviations, the 10-server grid (3-of-10, two writers, both formats) at <= %d" % (len(more), d - 1, d - 2)
     res.merge(grid.split_tasks(common.pmap, chunk, more, (seed,), d - 1, 0))
+    # one server lost its shares before the writers start (homeless shares, placed anew by both writers)
+    lost = [dict(c, lost=[sv]) for c in cases for sv in range(c["S"]) if c["n"] - (c["n"] // c["S"]) >= c["k"]]
+    if tier == "quick":
+        lost = [c for c in lost if c["lost"][0] in (0, c["S"] - 1)]
+    res.merge(grid.split_tasks(common.pmap, chunk, lost, (seed,), d - 1, 0))
     # encryption / hashing in the thread pool complete as scheduled events the other writer's calls can overtake
     res.merge(grid.split_tasks(common.pmap, chunk, [dict(c, cpu=True) for c in cases], (seed,), d - 1, 0))
     cov = {
